@@ -7,6 +7,10 @@ def check(ctx):
     core4.connect_component(ctx, "C13")
     core4.simultaneous_relations(ctx, "C13")
     core4.merged_transactions(ctx, "C13")
+    from . import core7
+
+    core7.group_has_enclosing(ctx, "C13")
+    core7.group_complete(ctx, "C13")
     # which members of a simultaneous group are enabled by their ready dependencies is decided from this set
     from . import core5
 
@@ -15,6 +19,10 @@ def check(ctx):
 
 C = core4.CONNECTORS
 MUTANTS = [
+    ("group-test-enclosing-only", core.MANAGER, "                    for dep in body.simultaneous_list\n                ):\n                    continue\n", "                    for dep in ready_dependencies[body]\n                    if dep in body.simultaneous_list\n                ):\n                    continue\n"),
+    ("group-test-no-alternatives", core.MANAGER, "return [d for d in body.simultaneous_list if d is dep or any(d in f and dep in f for f in families)]", "return [d for d in body.simultaneous_list if d is dep]"),
+    ("group-test-any-partner-suffices", core.MANAGER, "return [d for d in body.simultaneous_list if d is dep or any(d in f and dep in f for f in families)]", "return list(body.simultaneous_list)"),
+    ("incomplete-group-built", core.MANAGER, "                    for dep in body.simultaneous_list\n                ):\n                    continue\n", "                    for dep in body.simultaneous_list\n                ):\n                    pass\n"),
     ("connect-not-simultaneous", C, "        self.write.simultaneous(self.read)\n", ""),
     ("connect-order-instead", C, "        self.write.simultaneous(self.read)\n", "        self.write.schedule_before(self.read)\n"),
     ("connect-read-value-gated", C, "            m.d.av_comb += read_value.eq(arg)\n            return rev_read_value", "            m.d.sync += read_value.eq(arg)\n            return rev_read_value"),
